@@ -19,9 +19,10 @@ import (
 // Variant06 is the concrete expansion of the abstract classes of a C06
 // behaviour (chosen by the driver: all members in thorough, seeded in quick).
 type Variant06 struct {
-	Requester string  `json:"requester"` // "real": cedar's client code with a doctored cache entry; "hand": frames built with refcodec
-	OneOffPos int     `json:"oneOffPos"` // which character of the id differs (modulo its length)
-	CutFrac   float64 `json:"cutFrac"`   // where inside a frame a "mid" cut falls (0..1)
+	Requester string  `json:"requester"`           // "real": cedar's client code with a doctored cache entry; "hand": frames built with refcodec
+	OneOffPos int     `json:"oneOffPos"`           // which character of the id differs (modulo its length)
+	CutFrac   float64 `json:"cutFrac"`             // where inside a frame a "mid" cut falls (0..1)
+	Placement string  `json:"placement,omitempty"` // see Server.Placement: "" (own cache), "fallback", "global"
 }
 
 const serverAddr06 = "10.8.0.1:9618"
@@ -64,7 +65,7 @@ func NewWorld06() *World06 {
 // gets a real expiry in the past (model: present but dead) or far in the
 // future (model: alive). Entries the model does not have are left untouched.
 func (w *World06) remap(e *Entry) {
-	cache := w.srv.Cache()
+	cache := w.srv.Sessions()
 	for _, ent := range cache.Snapshot() {
 		for n, s := range w.sess {
 			if s.ID != ent.ID() || n > len(e.Present) || !e.Present[n-1] {
@@ -80,7 +81,7 @@ func (w *World06) remap(e *Entry) {
 }
 
 func (w *World06) present(id string) bool {
-	for _, e := range w.srv.Cache().Snapshot() {
+	for _, e := range w.srv.Sessions().Snapshot() {
 		if e.ID() == id {
 			return true
 		}
@@ -91,7 +92,7 @@ func (w *World06) present(id string) bool {
 // renewed reports whether the real entry's expiry is now+lease (read back after
 // a step that should renew the lease).
 func (w *World06) renewed(id string) bool {
-	for _, e := range w.srv.Cache().Snapshot() {
+	for _, e := range w.srv.Sessions().Snapshot() {
 		if e.ID() == id {
 			d := time.Until(e.Expiration()) - e.Lease()
 			return math.Abs(d.Seconds()) < 120
@@ -144,7 +145,29 @@ func broken(i int, format string, a ...any) *Diff {
 // Run06 steps the real code through one behaviour and returns the first
 // difference (nil = conforms).
 func Run06(sc *Scenario, v Variant06) (*Diff, *Stats06) {
+	d, st := run06(sc, v)
+	if d != nil && v.Placement != "" && v.Placement != "own" {
+		if d.Sig != nil {
+			d.Sig["placement"] = v.Placement
+		}
+		d.Detail = "[sessions in the process-global cache, server configured with " +
+			map[string]string{"fallback": "its own SessionCache (global fallback)", "global": "no SessionCache"}[v.Placement] + "] " + d.Detail
+	}
+	return d, st
+}
+
+func run06(sc *Scenario, v Variant06) (*Diff, *Stats06) {
 	w := NewWorld06()
+	w.srv.Placement = v.Placement
+	// sessions left in the process-global cache are removed again at the end (ids are
+	// unique per session, so parallel scenarios never see each other's entries)
+	defer func() {
+		if v.Placement == "fallback" || v.Placement == "global" {
+			for _, s := range w.sess {
+				security.GetSessionCache().Invalidate(s.ID)
+			}
+		}
+	}()
 	for i := range sc.H {
 		e := &sc.H[i]
 		if d := w.step(i, e, v); d != nil {
@@ -157,7 +180,7 @@ func Run06(sc *Scenario, v Variant06) (*Diff, *Stats06) {
 			if s == nil {
 				return broken(i, "model has session %d the harness never saw", n), &w.St
 			}
-			_, realAlive := w.srv.Cache().Lookup(s.ID)
+			_, realAlive := w.srv.Sessions().Lookup(s.ID)
 			if realAlive && !e.Alive[n-1] {
 				return viol(i, &e.Step, "DeadStaysDead", "after %s: session %d is expired/invalidated in the model but SessionCache.Lookup still returns it", e.Step.Act, n), &w.St
 			}
@@ -171,7 +194,7 @@ func Run06(sc *Scenario, v Variant06) (*Diff, *Stats06) {
 
 func (w *World06) step(i int, e *Entry, v Variant06) *Diff {
 	st := &e.Step
-	cache := w.srv.Cache()
+	cache := w.srv.Sessions()
 	switch st.Act {
 	case "Establish":
 		return w.establish(i, st)
@@ -221,7 +244,7 @@ func (w *World06) establish(i int, st *Step) *Diff {
 		return broken(i, "Establish(keyed=%v, authed=%v): full handshake failed: server %v / client %v", st.Keyed, st.Authed, log.Err, cr.Err)
 	}
 	id := log.Neg.SessionId
-	ent, ok := w.srv.Cache().Lookup(id)
+	ent, ok := w.srv.Sessions().Lookup(id)
 	if !ok || id == "" || cr.Neg.SessionId != id {
 		return broken(i, "Establish: session %q not cached on the server / ids differ (%q)", id, cr.Neg.SessionId)
 	}
@@ -439,7 +462,7 @@ func (w *World06) resume(i int, st *Step, v Variant06) *Diff {
 			// cedar's client declined to attempt the resumption (e.g. it does not try
 			// entries without a key): the request variant is then produced by hand.
 			if o.log.Neg != nil && o.log.Neg.SessionId != "" {
-				w.srv.Cache().Invalidate(o.log.Neg.SessionId) // forget the session its full handshake created
+				w.srv.Sessions().Invalidate(o.log.Neg.SessionId) // forget the session its full handshake created
 			}
 			w.St.RealDeclined++
 			kind = "hand"
